@@ -171,7 +171,7 @@ def function(src, name, sig_regex, body_only=False, within=None):
     lo, hi = within if within else (0, None)
     s, e = src.find_unique(sig_regex, lo, hi, what=name)
     # parameter list
-    p = src.next_code_char(e - 1 if src.text[e - 1] == "(" else e, "(")
+    p = src.next_code_char(s, "(")
     pe = src.match_brace(p)
     b = src.next_code_char(pe, "{;")
     if src.text[b] == ";":
@@ -182,10 +182,73 @@ def function(src, name, sig_regex, body_only=False, within=None):
     return Slice(name, src, s, be)
 
 
-def region(src, name, start_regex, end_regex, include_end=False):
-    s, _ = src.find_unique(start_regex, what=name + ":start")
-    es, ee = src.find_unique(end_regex, s, what=name + ":end")
+def region(src, name, start_regex, end_regex, include_end=False, within=None):
+    lo, hi = within if within else (0, None)
+    s, _ = src.find_unique(start_regex, lo, hi, what=name + ":start")
+    es, ee = src.find_unique(end_regex, s, hi, what=name + ":end")
     return Slice(name, src, s, ee if include_end else es)
+
+
+def _skip_ws(src, i):
+    n = len(src.text)
+    while i < n and (src.mask[i] == "x" or src.text[i] in " \t\r\n"):
+        i += 1
+    return i
+
+
+def _statement_end(src, i):
+    """i at the first char of a statement; returns index past it (block or simple stmt)."""
+    i = _skip_ws(src, i)
+    if src.text[i] == "{":
+        return src.match_brace(i)
+    if src.text.startswith("if", i) and not (src.text[i + 2].isalnum() or src.text[i + 2] == "_"):
+        return _if_end(src, i)
+    # simple statement: up to ';' at depth 0
+    depth = 0
+    n = len(src.text)
+    while i < n:
+        if src.mask[i] == "c":
+            ch = src.text[i]
+            if ch in "({[":
+                depth += 1
+            elif ch in ")}]":
+                depth -= 1
+            elif ch == ";" and depth == 0:
+                return i + 1
+        i += 1
+    raise ExtractionBroken(f"{src.relpath}: unterminated statement")
+
+
+def _if_end(src, i):
+    p = src.next_code_char(i, "(")
+    pe = src.match_brace(p)
+    e = _statement_end(src, pe)
+    j = _skip_ws(src, e)
+    if src.text.startswith("else", j) and not (src.text[j + 4].isalnum() or src.text[j + 4] == "_"):
+        return _statement_end(src, j + 4)
+    return e
+
+
+def if_chain(src, name, anchor_regex, within=None):
+    """The complete if / else-if / else statement whose `if` is matched by anchor_regex."""
+    lo, hi = within if within else (0, None)
+    s, _ = src.find_unique(anchor_regex, lo, hi, what=name)
+    if not src.text.startswith("if", s):
+        raise ExtractionBroken(f"{name}: anchor must start at the `if` keyword")
+    return Slice(name, src, s, _if_end(src, s))
+
+
+def statement(src, name, anchor_regex, within=None):
+    """One statement (simple, block, if-chain, for/while with body) starting at the anchor."""
+    lo, hi = within if within else (0, None)
+    s, _ = src.find_unique(anchor_regex, lo, hi, what=name)
+    t = src.text
+    m = re.match(r"(for|while|switch)\b", t[s:s + 8])
+    if m:
+        p = src.next_code_char(s, "(")
+        pe = src.match_brace(p)
+        return Slice(name, src, s, _statement_end(src, pe))
+    return Slice(name, src, s, _statement_end(src, s))
 
 
 def braced(src, name, head_regex, within=None):
